@@ -1,4 +1,5 @@
 """C02 Direct collocation constraints characterise the collocation polynomial."""
+import copy
 import random
 from fractions import Fraction as Fr
 
@@ -57,6 +58,11 @@ def instances(tier, seed):
     sb = Spec(nx=3, nu=1, xshape=[(2, 1), (1, 1)], ode=[Pg('a') * t, Pg('a') * t, nl1(X(0)) + U(0) * X(1)], params=[Sym('a', value=2)],
               ode_broadcast={0: Pg('a') * t}, note='scalar right-hand side for a vector state')
     add(fam.with_horizon(sb, H[1]), Cfg('DC', N=2, M=2, degree=2, scheme='radau', grid=fam.G_UNI))
+    # the horizon changed after a first transcription (set_t0/set_T on a transcribed OCP): the rows are those of the final horizon
+    for ri, (degree, scheme, N, M) in enumerate(((2, 'radau', 2, 2), (1, 'legendre', 3, 1), (1, 'radau', 2, 1)) if tier == 'quick' else ((2, 'radau', 2, 2), (1, 'legendre', 3, 1), (1, 'radau', 2, 1), (2, 'radau', 3, 1), (1, 'radau', 1, 3))):
+        s = copy.deepcopy(models[ri % len(models)])
+        add(fam.with_horizon(s, (('num', Fr(1, 2)), ('num', Fr(2)))), Cfg('DC', N=N, M=M, degree=degree, scheme=scheme, grid=[fam.G_UNI, fam.G_GEO_LOC][ri % 2]),
+            rehorizon=(Fr(0), Fr(1)))
     nrand = 10 if tier == 'quick' else 400
     for r in range(nrand):
         s = fam.random_dae(rng) if rng.random() < 0.6 else fam.random_ode(rng)
@@ -79,7 +85,11 @@ def instances(tier, seed):
 
 def run(item):
     spec, cfg = item['spec'], item['cfg']
-    inst = Inst(spec, cfg, seed=item.get('seed', 0), poly=item.get('poly', False))
+    built = None
+    if item.get('rehorizon'):
+        from .common import rehorizon_built
+        built = rehorizon_built(spec, cfg, item['rehorizon'], poly=item.get('poly', False))
+    inst = Inst(spec, cfg, seed=item.get('seed', 0), poly=item.get('poly', False), built=built, solver=built is None)
     z3 = inst.z3
     trz = inst.traj('z')
     hyps = []
